@@ -54,6 +54,11 @@ func Parse(yangfiles, path []string) (map[string]*yang.Entry, []error) {
 
 	entries := make(map[string]*yang.Entry)
 	for _, m := range ms.Modules {
+		// Several revisions of a module may have been read: file the one
+		// the bare name denotes, not the one the map yields last.
+		if latest := ms.Modules[m.Name]; latest != nil {
+			m = latest
+		}
 		e := yang.ToEntry(m)
 		entries[e.Name] = e
 	}
